@@ -318,6 +318,16 @@ def oracle_refit(scA, xB, centB, cap, thr):
     return None
 
 
+def big_scenario(seed):
+    r = np.random.default_rng(seed)
+    K, D = 3, 2
+    N = int(r.integers(4097, 9000))
+    centers = r.normal(0, 6, size=(K, D))
+    lab = np.sort(r.integers(0, K, N))  # ordered data: the tail differs from the head
+    x = centers[lab] + r.normal(size=(N, D))
+    return dict(K=K, D=D, x=x, cent=centers + 0.5 * r.normal(size=(K, D)), sizes=(N // 2, N - N // 2), late=None)
+
+
 def search(ctx):
     fails, seen = [], set()
     for i in range(ctx.budget(12, 120)):
@@ -345,6 +355,16 @@ def search(ctx):
             f["input"] = {**{k: sc[k] for k in ("K", "D", "x", "cent", "sizes", "late") if k in sc}, "dask": use_dask}
             f["oracle"] = "descent"
             fails.append(f)
+    # one in-memory data set of several thousand ordered rows (internal batching must not lose rows)
+    big = big_scenario(ctx.seed + 3)
+    ctx.count("search:descent:several-thousand-rows")
+    ctx.case(["big", ctx.seed], nontrivial=True)
+    f = oracle(big, steps=2)
+    if f and f["sig"] not in seen:
+        seen.add(f["sig"])
+        f["input"] = {"big_seed": ctx.seed + 3}
+        f["oracle"] = "descent"
+        fails.append(f)
     if ctx.tier == "thorough" or ctx.broken:
         for i in range(ctx.budget(10, 80)):
             sc = scenario(ctx, i)
@@ -367,6 +387,8 @@ def search(ctx):
 
 def replay(d):
     sc = d["input"]
+    if "big_seed" in sc:
+        return oracle(big_scenario(sc["big_seed"]), steps=2)
     if d.get("oracle") != "refit":
         sc["x"] = np.asarray(sc["x"], dtype=float)
         sc["cent"] = np.asarray(sc["cent"], dtype=float)
